@@ -126,7 +126,10 @@ def r15a(model, ctx):
     ctx.check(ok, R, "getitem:dynamic-index", "View: word_select(key, elem_width); Const: defers to the view",
               "dynamic indexing must use word_select(key, elem_width), and constants must defer to a view", f"{D}:{fv.lineno}")
     # negative indices are normalised the same way
-    ok = tv.count("key += self.__layout.length") == 1 and tc.count("key += self.__layout.length") == 1
+    def _wraps(t):
+        # `if key < 0: key += length`, or the remainder by the length (the key was range-checked to [-length, length) before)
+        return t.count("key += self.__layout.length") == 1 or "key % self.__layout.length" in t or "key %= self.__layout.length" in t
+    ok = _wraps(tv) and _wraps(tc)
     ctx.check(ok, R, "getitem:negative-index", "negative indices wrap by the array length in both", "negative array indices must be "
               "normalised by adding the array length in both twins", f"{D}:{fv.lineno}")
 
